@@ -161,6 +161,10 @@ func (h *hRunner) genSession(assoc int) (*vEstSpec, *mSession, map[uint16]*mFlow
 	precs := append([]uint32{}, c.PrecSet...)
 	if len(precs) == 0 {
 		precs = []uint32{10, 20, 30, 40, 50, 60, 70, 80, 100, 200, 255, 1000}
+		if !c.UP4 {
+			// the whole 32-bit range is legal on BESS (UP4 refuses 65535 and above)
+			precs = append(precs, 0, 65535, 65536, 0x7FFFFFFF, 0x80000000, 0xFFFFFFF0)
+		}
 	}
 	rng.Shuffle(len(precs), func(i, j int) { precs[i], precs[j] = precs[j], precs[i] })
 	pi := 0
@@ -422,6 +426,10 @@ func (h *hRunner) genMod(a int, s *mSession) *hOp {
 				}
 			}
 			mod.UpFAR = append(mod.UpFAR, nf)
+		}
+		if rng.Intn(6) == 0 {
+			// one more Update FAR that names a rule the session does not have: it changes nothing
+			mod.UpFAR = append(mod.UpFAR, vFARSpec{ID: 0x7700 + uint32(rng.Intn(16)), Action: ActionForward, Fwd: true, HasDst: true, DstIf: ie.DstInterfaceAccess, OHC: true, OHCTeid: 0x31337, OHCIP: upGNB})
 		}
 	case "upqer":
 		if len(s.QERs) == 0 {
